@@ -158,7 +158,9 @@ func c20Queries() []string {
 		"école café", "show file without opening", "see contents without editing", "look inside folder", "read text", "readme without opening", "overview file without editing", "список", "файл", "λίστα", "mkdir", "recrd chngs", "lst", "c", "zip out", "apt", "caf", "échó",
 		// stop words: dropped by the tokenizer whatever their case, so they never use up the term budget
 		"how to find the largest files in a directory", "how do i list all the files in my folder", "what is the command to compress a folder with tar",
-		"the a an to of in", "how to git"} {
+		"the a an to of in", "how to git",
+		// words that name a platform or its shell (proper nouns people capitalise)
+		"list files windows", "files on windows", "powershell list files", "linux files", "qzx macos", "git log windows"} {
 		add(q)
 	}
 	return out
@@ -303,7 +305,7 @@ func c20Run(c *lib.Ctx) {
 func init() {
 	lib.Register(&lib.Check{
 		ID: "C20", Level: "model_checking",
-		Rule:      "every query (all 1- and 2-word sequences over the lower-cased 22-word alphabet + 26 typo / NLP / non-ASCII queries + 5 stop-word-laden queries of up to 11 words) x every case re-spelling (all 2^n patterns when the query has n<=6 cased letters, else lower/UPPER/Title/alternating/last-letter) x paths {lexical, NLP, fuzzy thr 0, fuzzy thr -30, NLP+fuzzy, cached (q then Q, served from q's entry, also compared with a fresh search of Q), suggestions; for queries of >=4 words also lexical with TopTermsCap 4 and NLP with TopTermsCap 5} x databases (all subsets of <=2 of 10 pool entries incl. upper-case and non-ASCII text, the 40-entry database, a Cyrillic/Greek/Latin-1 database, a database with the NLP expansion vocabulary): answers must be bit-identical to the lower-case spelling's; 8 white-space paddings of every query (ASCII and Unicode blanks, leading / trailing / repeated) through ValidateQuery: the validated form is the plain query's, or else every path must answer both forms alike. Letters re-cased only between ToLower/ToUpper forms that are mutually inverse and fold-equivalent. evaluations = searches; non-trivial = pairs with a non-empty answer",
+		Rule:      "every query (all 1- and 2-word sequences over the lower-cased 22-word alphabet + 26 typo / NLP / non-ASCII queries + 5 stop-word-laden queries of up to 11 words + 6 queries naming a platform or its shell) x every case re-spelling (all 2^n patterns when the query has n<=6 cased letters, else lower/UPPER/Title/alternating/last-letter) x paths {lexical, NLP, fuzzy thr 0, fuzzy thr -30, NLP+fuzzy, cached (q then Q, served from q's entry, also compared with a fresh search of Q), suggestions; for queries of >=4 words also lexical with TopTermsCap 4 and NLP with TopTermsCap 5} x databases (all subsets of <=2 of 10 pool entries incl. upper-case and non-ASCII text, the 40-entry database, a Cyrillic/Greek/Latin-1 database, a database with the NLP expansion vocabulary): answers must be bit-identical to the lower-case spelling's; 8 white-space paddings of every query (ASCII and Unicode blanks, leading / trailing / repeated) through ValidateQuery: the validated form is the plain query's, or else every path must answer both forms alike. Letters re-cased only between ToLower/ToUpper forms that are mutually inverse and fold-equivalent. evaluations = searches; non-trivial = pairs with a non-empty answer",
 		Assume:    []string{"map order pinned, host pinned", "CLI-level padding and case pairs are checked at process level in C17"},
 		QuickSecs: 150, ThorSecs: 900,
 		Run: c20Run,
